@@ -191,3 +191,114 @@ pub fn history(spec: &Value) -> Value {
     }
     json!({"calls": out})
 }
+
+/// C18: parameter objects of several shapes are created and dropped in some order, with deterministic prove + verify tasks in between;
+/// every task result must be what the same task gives in a process that only ever created that one object
+pub fn churn(spec: &Value) -> Value {
+    use std::collections::HashMap;
+    let mut slots: HashMap<String, RangeParameters<RistrettoPoint>> = HashMap::new();
+    let mut out = vec![];
+    for st in spec["steps"].as_array().unwrap() {
+        let kind = st[0].as_str().unwrap();
+        let slot = st[1].as_str().unwrap().to_string();
+        match kind {
+            "new" => {
+                let bits = st[2].as_u64().unwrap() as usize;
+                let cap = st[3].as_u64().unwrap() as usize;
+                let t = st[4].as_u64().unwrap_or(1) as usize;
+                let r = std::panic::catch_unwind(|| RangeParameters::<RistrettoPoint>::init(bits, cap, ristretto::create_pedersen_gens_with_extension_degree(ext_degree(t))));
+                match r {
+                    Ok(Ok(p)) => {
+                        slots.insert(slot, p);
+                        out.push(json!({"new": "ok"}));
+                    },
+                    Ok(Err(_)) => out.push(json!({"new": "err"})),
+                    Err(_) => out.push(json!({"new": "panic"})),
+                }
+            },
+            "drop" => {
+                slots.remove(&slot);
+                out.push(json!({"drop": true}));
+            },
+            "task" => {
+                let seed = st[2].as_u64().unwrap();
+                match slots.get(&slot) {
+                    Some(p) => {
+                        let p2 = p.clone();
+                        let r = std::panic::catch_unwind(std::panic::AssertUnwindSafe(|| task(&p2, seed)));
+                        out.push(r.unwrap_or_else(|_| json!({"panic": true})));
+                    },
+                    None => out.push(json!({"missing": true})),
+                }
+            },
+            _ => out.push(json!({"bad": kind})),
+        }
+    }
+    json!({"steps": out})
+}
+
+/// C11: every way of walking the generator accessors must hand out the same points as a plain `collect()`:
+/// positioned access (`nth`, `skip`, `step_by`, `last`, `count`) on fresh and on partially consumed iterators
+pub fn iter_api(bits: usize, cap: usize) -> Value {
+    let pc = ristretto::create_pedersen_gens_with_extension_degree(ext_degree(1));
+    let params = match RangeParameters::<RistrettoPoint>::init(bits, cap, pc) {
+        Ok(p) => p,
+        Err(_) => return json!({"error": "init"}),
+    };
+    let mut bad = vec![];
+    for which in ["G", "Hv"] {
+        let all: Vec<RistrettoPoint> = if which == "G" { params.gi_base_iter().cloned().collect() } else { params.hi_base_iter().cloned().collect() };
+        let n = all.len();
+        macro_rules! it {
+            () => {{
+                let b: Box<dyn Iterator<Item = &RistrettoPoint> + '_> = if which == "G" { Box::new(params.gi_base_iter()) } else { Box::new(params.hi_base_iter()) };
+                b
+            }};
+        }
+        if it!().count() != n {
+            bad.push(json!({"vector": which, "api": "count"}));
+        }
+        if it!().last() != all.last() {
+            bad.push(json!({"vector": which, "api": "last"}));
+        }
+        for a in [0usize, 1, bits.saturating_sub(1), bits, bits + 1, 2 * bits] {
+            for k in [0usize, 1, 2, 3, bits.saturating_sub(1), bits, bits + 1, 2 * bits + 1] {
+                if a > n {
+                    continue;
+                }
+                // consume `a` elements, then jump
+                let mut i1 = it!();
+                for _ in 0..a {
+                    i1.next();
+                }
+                let got = i1.nth(k);
+                let want = all.get(a + k);
+                if got != want {
+                    bad.push(json!({"vector": which, "api": "nth", "consumed": a, "k": k}));
+                }
+                let mut i2 = it!();
+                let head: Vec<&RistrettoPoint> = i2.by_ref().take(a).collect();
+                if head.len() != a.min(n) || head.iter().zip(all.iter()).any(|(x, y)| *x != y) {
+                    bad.push(json!({"vector": which, "api": "by_ref.take", "consumed": a}));
+                }
+                let rest: Vec<&RistrettoPoint> = i2.skip(k).collect();
+                let want_rest: Vec<&RistrettoPoint> = all.iter().skip(a + k).collect();
+                if rest != want_rest {
+                    bad.push(json!({"vector": which, "api": "skip", "consumed": a, "k": k}));
+                }
+                if k >= 1 {
+                    let mut i3 = it!();
+                    for _ in 0..a {
+                        i3.next();
+                    }
+                    let st: Vec<&RistrettoPoint> = i3.step_by(k).collect();
+                    let want_st: Vec<&RistrettoPoint> = all.iter().skip(a).step_by(k).collect();
+                    if st != want_st {
+                        bad.push(json!({"vector": which, "api": "step_by", "consumed": a, "k": k}));
+                    }
+                }
+            }
+        }
+    }
+    json!({"bits": bits, "cap": cap, "mismatches": bad})
+}
